@@ -227,6 +227,8 @@ def check_frame_typing(repo, chk):
         def is_rv(c):
             return isinstance(c, ast.Call) and norm_text(c.func).endswith("rest_vector") and len(c.args) + len(c.keywords) == 2
 
+        ctx = ["any"]  # "top" / "nontop" branch of cal_chain_boost
+
         def typed(call, env, cur_decay, st):
             """frame check of one rest_vector call; returns (fa, fb)"""
             nonlocal n_sites
@@ -240,6 +242,13 @@ def check_frame_typing(repo, chk):
             chk.oblige("T-frame", "%s:%d rest_vector(%s, %s): frames %s / %s agree" % (fn.mod.rel, st.lineno, norm_text(a0), norm_text(a1), fa[:-1], fb[:-1]), ok)
             if not ok:
                 chk.violation("T-frame", key, "mixed-frame:" + site, "boost velocity taken from %s but the boosted momentum from %s: the result is not the momentum in the decaying particle's rest frame (intermediate boosts dropped)" % (fa, fb), file=fn.mod.rel, line=st.lineno)
+            if ok and ctx[0] == "nontop" and cur_decay is not None:
+                # below the top decay the momenta must be taken in the rest frame of the decay that produced the mother
+                # (chained boosts); a direct boost from the lab frame differs by a Wigner rotation
+                chained = fa[0] == "rest" and fa[2].replace(" ", "") == "core_decay_map[%s.core]" % cur_decay
+                chk.oblige("T-frame", "%s:%d non-top decay: momenta taken in the rest frame of the decay that produced %s.core" % (fn.mod.rel, st.lineno, cur_decay), chained)
+                if not chained:
+                    chk.violation("T-frame", key, "direct-boost:" + site, "below the top decay the boost starts from %s instead of the rest frame of the decay that produced %s.core: the chained boosts are replaced by a direct boost (Wigner rotation lost, helicity angles change for a moving parent)" % (fa[:3], cur_decay), file=fn.mod.rel, line=st.lineno)
             if ok and cur_decay is not None:
                 part = fa[-1]
                 if part != cur_decay + ".core":
@@ -262,8 +271,22 @@ def check_frame_typing(repo, chk):
                             d = st.target.id
                         walk(st.body, dict(env), d)
                     elif isinstance(st, ast.If):
-                        walk(st.body, dict(env), cur_decay)
-                        walk(st.orelse, dict(env), cur_decay)
+                        t = norm_text(st.test).replace(" ", "")
+                        saved = ctx[0]
+                        if t.endswith("==decay_chain.top") or t.startswith("decay_chain.top=="):
+                            ctx[0] = "top"
+                            walk(st.body, dict(env), cur_decay)
+                            ctx[0] = "nontop"
+                            walk(st.orelse, dict(env), cur_decay)
+                        elif t.endswith("incore_decay_map"):
+                            ctx[0] = "nontop"
+                            walk(st.body, dict(env), cur_decay)
+                            ctx[0] = saved
+                            walk(st.orelse, dict(env), cur_decay)
+                        else:
+                            walk(st.body, dict(env), cur_decay)
+                            walk(st.orelse, dict(env), cur_decay)
+                        ctx[0] = saved
                     else:
                         walk(st.body, dict(env) if isinstance(st, ast.While) else env, cur_decay)
                     continue
